@@ -105,8 +105,21 @@ func (e *Eval) compile(node ast.Node) error {
 		}
 
 		// sort them
+		//
+		// The order must not depend on the order in which the map
+		// handed us the keys, so ties (keys which are spelled the
+		// same, such as `1` and "1", or a key given twice) are
+		// broken by the kind of key and then by the value.
 		sort.Slice(keys, func(i, j int) bool {
-			return keys[i].String() < keys[j].String()
+			a, b := keys[i].String(), keys[j].String()
+			if a != b {
+				return a < b
+			}
+			ta, tb := fmt.Sprintf("%T", keys[i]), fmt.Sprintf("%T", keys[j])
+			if ta != tb {
+				return ta < tb
+			}
+			return node.Pairs[keys[i]].String() < node.Pairs[keys[j]].String()
 		})
 
 		// for each key + value compile them
